@@ -97,6 +97,119 @@ mod mpform {
         pub a: Bytes,
         pub b: Text<String>,
     }
+    /// repeatable fields: a field-level limit is documented to be shared by all parts of that name
+    #[derive(MultipartForm)]
+    pub struct Many {
+        #[multipart(limit = "4KiB")]
+        pub a: Vec<Bytes>,
+        #[multipart(limit = "1KiB")]
+        pub b: Vec<Text<String>>,
+    }
+}
+
+/// Parts named `a` / `b` in any order and number against `Many`: the bytes of all parts of one
+/// name count against that name's limit, all of them against the form's memory limit.
+#[derive(Debug, Clone, Serialize, Deserialize)]
+pub struct ManyCase {
+    /// (0 = a, 1 = b; length)
+    pub parts: Vec<(u8, u32)>,
+    pub memory_limit: u32,
+    pub cuts: Vec<u16>,
+    pub pendings: Vec<u8>,
+}
+
+pub fn run_many(_cfg: &RunCfg, case: &ManyCase) -> Verdict {
+    let mut wire = vec![];
+    let mut sum = [0usize; 2];
+    let mut counts = [0usize; 2];
+    let mut first_over: Option<usize> = None;
+    let mut total = 0usize;
+    for (i, (name, len)) in case.parts.iter().enumerate() {
+        let k = (*name % 2) as usize;
+        wire.extend_from_slice(format!("--XBOUND\r\nContent-Disposition: form-data; name=\"{}\"\r\n\r\n", if k == 0 { "a" } else { "b" }).as_bytes());
+        wire.extend(std::iter::repeat(if k == 0 { b'a' } else { b'b' }).take(*len as usize));
+        wire.extend_from_slice(b"\r\n");
+        sum[k] += *len as usize;
+        counts[k] += 1;
+        total += *len as usize;
+        if first_over.is_none() && (sum[0] > 4096 || sum[1] > 1024 || total > case.memory_limit as usize) {
+            first_over = Some(i);
+        }
+    }
+    wire.extend_from_slice(b"--XBOUND--\r\n");
+    let over = first_over.is_some();
+    let interleaved = case.parts.windows(3).any(|w| w[0].0 % 2 == w[2].0 % 2 && w[0].0 % 2 != w[1].0 % 2);
+    let v = Verdict::ok()
+        .nt(case.parts.len() >= 2)
+        .class("multipart-many")
+        .class_if(over, "over-limit")
+        .class_if(!over, "within-limit")
+        .class_if(interleaved, "same-name-parts-interleaved-with-another-name")
+        .class_if(sum[0] > 4096 && case.parts.iter().all(|(n, l)| n % 2 != 0 || *l <= 4096), "field-limit-exceeded-only-in-sum");
+    let mut outcomes = vec![];
+    for whole in [false, true] {
+        let cuts: Vec<usize> = if whole { vec![] } else { case.cuts.iter().map(|c| util_pick(*c, wire.len())).collect() };
+        let mut cuts = cuts;
+        cuts.sort();
+        cuts.dedup();
+        let chunks = streams::split_at(&wire, &cuts);
+        let pend: Vec<u8> = (0..chunks.len() + 1).map(|i| case.pendings.get(i % case.pendings.len().max(1)).copied().unwrap_or(0)).collect();
+        let (stream, _stats) = ScriptedStream::new(chunks, pend, StreamEnd::Eof);
+        let req = actix_web::test::TestRequest::post()
+            .insert_header((header::CONTENT_TYPE, "multipart/form-data; boundary=XBOUND"))
+            .app_data(actix_multipart::form::MultipartFormConfig::default().memory_limit(case.memory_limit as usize).total_limit(1 << 30))
+            .to_http_request();
+        let fut = async move {
+            let boxed: std::pin::Pin<Box<dyn futures_core::Stream<Item = Result<Bytes, actix_web::error::PayloadError>>>> = Box::pin(stream);
+            let mut pl = dev::Payload::Stream { payload: boxed };
+            match actix_multipart::form::MultipartForm::<mpform::Many>::from_request(&req, &mut pl).await {
+                Ok(f) => Ok((f.0.a.iter().map(|b| b.data.len()).collect::<Vec<_>>(), f.0.b.iter().map(|t| t.0.len()).collect::<Vec<_>>())),
+                Err(e) => Err(format!("{e:?}")),
+            }
+        };
+        let res = match streams::run_local(120_000, fut) {
+            RunEnd::Done(o) => o,
+            RunEnd::Hang => return v.fail_with(format!("MultipartForm never completed (parts {:?})", case.parts)),
+            RunEnd::Panicked(p) => return v.fail_with(format!("panic: {p}")),
+        };
+        let ctx = || format!("[parts (name, len) {:?}; limits a 4096 / b 1024 / memory {}; sums a {} b {}; {}]", case.parts, case.memory_limit, sum[0], sum[1], if whole { "one chunk" } else { "cut" });
+        match &res {
+            Ok((a, b)) => {
+                if over {
+                    return v.fail_with(format!("MultipartForm accepted a form over its limits {}", ctx()));
+                }
+                let want_a: Vec<usize> = case.parts.iter().filter(|(n, _)| n % 2 == 0).map(|(_, l)| *l as usize).collect();
+                let want_b: Vec<usize> = case.parts.iter().filter(|(n, _)| n % 2 == 1).map(|(_, l)| *l as usize).collect();
+                if *a != want_a || *b != want_b {
+                    return v.fail_with(format!("MultipartForm delivered parts of lengths a {a:?} b {b:?} {}", ctx()));
+                }
+            }
+            Err(e) => {
+                if !over {
+                    return v.fail_with(format!("MultipartForm rejected a form within its limits: {e} {}", ctx()));
+                }
+            }
+        }
+        outcomes.push(res.is_ok());
+    }
+    if outcomes[0] != outcomes[1] {
+        return v.fail_with(format!("the outcome depends on the chunking (parts {:?})", case.parts));
+    }
+    v
+}
+
+fn util_pick(sel: u16, len: usize) -> usize {
+    crate::util::pick_idx(sel, len + 1)
+}
+
+fn many_strategy() -> impl Strategy<Value = ManyCase> {
+    (
+        proptest::collection::vec((0u8..2, prop_oneof![2 => 0u32..50, 3 => 500u32..1100, 3 => 1300u32..2200, 1 => 4000u32..4200]), 1..7),
+        prop_oneof![3 => Just(1u32 << 20), 1 => Just(5000u32), 1 => 1u32..9000],
+        proptest::collection::vec(any::<u16>(), 0..6),
+        proptest::collection::vec(0u8..3, 1..4),
+    )
+        .prop_map(|(parts, memory_limit, cuts, pendings)| ManyCase { parts, memory_limit, cuts, pendings })
 }
 
 fn encode(coding: Coding, data: &[u8]) -> Vec<u8> {
@@ -527,7 +640,7 @@ fn case_strategy() -> impl Strategy<Value = Case> {
 
 pub fn run(cfg: &RunCfg) -> Report {
     let mut rep = Report::new("C12");
-    rep.rule = "cases = extractor (Bytes, String, Json<String>, Form<{k}>, Payload::to_bytes_limited, body::to_bytes_limited, MultipartForm{a: Bytes limit 4 KiB, b: Text} with memory_limit) x limit 0/1/7/1024/262144/random x decoded length limit-1/limit/limit+1/limit+-20/2x/64x x valid or invalid content x compressible or not x coding identity/gzip/deflate/br/zstd (encoded with the codec libraries) x Content-Length absent/true/lying low/lying high x chunking one/1-byte/fixed size/boundary exactly at the limit/random cuts with Pending patterns; each case is run with its chunking and as one chunk; \
+    rep.rule = "cases = extractor (Bytes, String, Json<String>, Form<{k}>, Payload::to_bytes_limited, body::to_bytes_limited, MultipartForm{a: Bytes limit 4 KiB, b: Text} with memory_limit) x limit 0/1/7/1024/262144/random x decoded length limit-1/limit/limit+1/limit+-20/2x/64x x valid or invalid content x compressible or not x coding identity/gzip/deflate/br/zstd (encoded with the codec libraries) x Content-Length absent/true/lying low/lying high x chunking one/1-byte/fixed size/boundary exactly at the limit/random cuts with Pending patterns; each case is run with its chunking and as one chunk; phase multipart-many: 1-6 parts named a / b in any order against MultipartForm{a: Vec<Bytes> limit 4 KiB, b: Vec<Text> limit 1 KiB} with memory_limit (a field limit is shared by all parts of one name); \
                 non-trivial = decoded length within 1 of the limit, or over the limit with no or a lying-low Content-Length, or a compressed body small on the wire but over the limit when decoded, or a multipart form; distinct by hash of the case"
         .into();
     rep.assumptions = vec![
@@ -539,10 +652,15 @@ pub fn run(cfg: &RunCfg) -> Report {
     runner::replay_pinned(&mut rep, cfg, &replay);
     runner::replay_regress(&mut rep, cfg, &replay);
     explore(&mut rep, cfg, "extract", cfg.cases(30_000, 600_000), case_strategy, |c| run_case(cfg, c));
+    explore(&mut rep, cfg, "multipart-many", cfg.cases(200_000, 4_000_000), many_strategy, |c| run_many(cfg, c));
     rep
 }
 
-pub fn replay(cfg: &RunCfg, _phase: &str, case: &serde_json::Value) -> Result<Verdict, String> {
+pub fn replay(cfg: &RunCfg, phase: &str, case: &serde_json::Value) -> Result<Verdict, String> {
+    if phase == "multipart-many" || case.get("parts").is_some() {
+        let c: ManyCase = runner::from_json(case)?;
+        return Ok(run_many(cfg, &c));
+    }
     let c: Case = runner::from_json(case)?;
     Ok(run_case(cfg, &c))
 }
